@@ -1942,7 +1942,9 @@ PROPS["C04"]["level_text"] += (
     "with ShortFloats ext v), c04_default_short_floats (every well-formed Value whose floats are of that class survives to_string / "
     "to_string_pretty -> from_str / from_slice / from_reader, the only float hypothesis left being RyuShortest about the external "
     "printer), c04_typed_default_short (the same for the f64 members of typed data; the f32 hypothesis F32sRoundTrip is still carried). "
-    "ShortFloats is exactly what harness/src/c04.rs prints_short evaluates on the text the crate prints. The class cannot be widened to "
+    "ShortFloats is exactly what harness/src/c04.rs prints_short evaluates on the text the crate prints. c04_default_exact_floats: the same "
+    "for the wider class ExactFloats - digits as written below 2^53 instead of 10^15 (Proofs/FloatLiteral53.lean: C08's exactness argument "
+    "with the bound it really uses), which admits 123456789012345.0 (ryu writes sixteen digits); c04_short_is_exact. The class cannot be widened to "
     "'15 significant digits, scientific exponent within +-22': c04_default_long_fails (the double 8000000000000020.0 - 15 significant "
     "digits, printed by ryu with seventeen - is read back by the default build as 8000000000000019.0) and c04_default_sci15_fails "
     "(7.40865532228085e-9 comes back as 7.408655322280851e-9), both kernel-checked on the model and replayed on the crate (op f64lit).")
@@ -1952,8 +1954,9 @@ _add("C04", "partial", [
     "default build: c04_default_short_floats reads the statement's class 'at most 15 significant digits, decimal exponent within +-22' as C08 "
     "states it - digits of the printed text as the parser accumulates them (a trailing .0 counts) and NET exponent (written exponent minus "
     "fraction digits). Under the other reading (significant digits of the shortest representation, scientific exponent) the statement is false in "
-    "the default build: c04_default_long_fails, c04_default_sci15_fails (kernel-checked witnesses, replayed on the crate). The class is "
-    "sufficient, not necessary (123456789012345.0 prints with sixteen digits and round-trips). For typed data the f32 members' hypothesis "
+    "the default build: c04_default_long_fails, c04_default_sci15_fails (kernel-checked witnesses, replayed on the crate). The classes are "
+    "sufficient, not necessary (integral doubles in [2^53/10, 10^15) print with a trailing .0 and a significand of sixteen digits above 2^53 "
+    "and still round-trip: not covered). For typed data the f32 members' hypothesis "
     "F32sRoundTrip stays carried in the default build (checked on all 2^32 patterns by op f32all)",
 ])
 PROPS["C05"]["lean_targets"] = PROPS["C05"]["lean_targets"][:-1] + ["SJ.Props.C05Hex"] + PROPS["C05"]["lean_targets"][-1:]
